@@ -294,7 +294,7 @@ def case_misc(col, p):
         if not np.array_equal(got, ex):
             col.violation('C08:project:mask_window', dict(p, m=[n // 2, 3], h=[n // 2, 1]), {'masked': int(got.sum()), 'expected': int(ex.sum())})
         col.tick(states=cnt + 1)
-    elif what == 'upward':
+    elif what == 'upward_weights':
         # a target larger than the number of chromosomes called: no weight at all, whatever the number of derived alleles (the site is dropped)
         from dadi import Numerics
         for n_ in range(0, 9):
@@ -304,6 +304,31 @@ def case_misc(col, p):
                     col.tick(transitions=1)
                     if w.shape != (m_ + 1,) or np.any(w != 0):
                         col.violation('C08:_cached_projection:upward_projection_has_weight', dict(p, m=m_, n=n_, h=h_), {'weights': w})
+    elif what == 'lowpass_subsample':
+        # the low-pass subsampling step under EVERY answer of its random source: each k-subset of the called genotypes is reachable, also when
+        # every individual was called (subsampling is a draw without replacement, not 'the first k of the sorted genotypes')
+        import itertools
+        import dadi.LowPass.LowPass as LP
+        from checks.C18 import _EnvRng
+        old_rng = LP.rng
+        try:
+            for row, nsub_ in (([0, 0, 0, 2], 4), ([0, 1, 2], 2), ([0, 2, 2, 1, 99], 4), ([1, 1, 0, 99, 99], 2)):
+                G = np.array([row], dtype=int)
+                called = [g for g in row if g != 99]
+                k_ = nsub_ // 2
+                reach = set()
+                nperm = len(list(itertools.permutations(range(len(called)))))
+                for ans in range(nperm):
+                    LP.rng = _EnvRng([ans])
+                    out = LP.subsample_genotypes_1D(G.copy(), nsub_)
+                    col.tick(transitions=1)
+                    reach.add(tuple(sorted(int(v) for v in out[0])))
+                want = set(tuple(sorted(c)) for c in itertools.combinations(called, k_))
+                if reach != want:
+                    col.violation('C08:lowpass_subsample:not_every_subset_reachable', dict(p, genotypes=row, nsub=nsub_),
+                                  {'reachable': sorted(reach), 'expected': sorted(want)})
+        finally:
+            LP.rng = old_rng
     elif what == 'lowpass_symmetry':
         # the low-pass subsampling matrix (with or without inbreeding): relabelling the alleles mirrors it, and the expected derived count
         # is preserved in proportion (h * nsub / n) - subsampling individuals has no preferred allele
@@ -589,8 +614,9 @@ def run(ctx):
         cases.append({'kind': 'misc', 'what': 'neutral_fixed_point', 'n': n})
     cases.append({'kind': 'misc', 'what': 'upward'})
     cases.append({'kind': 'misc', 'what': 'lowpass_deep'})
-    cases.append({'kind': 'misc', 'what': 'upward'})
+    cases.append({'kind': 'misc', 'what': 'upward_weights'})
     cases.append({'kind': 'misc', 'what': 'lowpass_symmetry'})
+    cases.append({'kind': 'misc', 'what': 'lowpass_subsample'})
     for n in (41, 66, 100, 200):
         cases.append({'kind': 'misc', 'what': 'mask_window', 'n': n})
     cases.append({'kind': 'cache_history', 'depth': 2 if ctx.quick else 3})
